@@ -98,7 +98,9 @@ class UpdateTaskState(Unit):
         "C07.uts.ready_from_satisfied": {"props": ["C07"], "text":
             "the ready flag of a (re)staged non-command successor equals 'inbound criteria satisfied'"},
         "C06.uts.ctx_inherited": {"props": ["C06", "C13"], "text":
-            "the context pointers the completing task had received are handed on: a newly staged successor's pointers start with the task's own (then the new delta), an already staged successor keeps its own and gains the task's non-root ones; a task re-staged for a retry is staged with exactly its record's pointers and back references (as copies)"},
+            "the context pointers the completing task had received are handed on: a newly staged successor's pointers start with the task's own (then the new delta), an already staged successor keeps its own and gains those of the task's non-root ones it does not hold yet (none twice); a task re-staged for a retry is staged with exactly its record's pointers and back references (as copies)"},
+        "C04.uts.late_item_report_absorbed": {"props": ["C04", "C12", "C18"], "text":
+            "a report (running, succeeded, canceled, failed) of an item of a with-items task that is already completed - its staged entry gone, or kept and flagged completed - is absorbed without error: no new record is opened, the finished record keeps its status and decisions, nothing is staged again"},
         "C04.uts.cleanup_marked": {"props": ["C04", "C01"], "text":
             "every ready non-command task staged by a completing task that also takes a fail command is marked run_on_fail - whatever other commands (noop, continue) the task takes before or after the fail - so the documented clean-up tasks are still offered once the workflow has failed"},
         "C04.uts.run_on_fail_marking": {"props": ["C04", "C10"], "text":
@@ -150,6 +152,11 @@ class UpdateTaskState(Unit):
                     if rec is None and ev != st.RUNNING:
                         continue
                     out.append(("item", ev, rec, "items", cfg))
+        # late item reports: the with-items task is completed; its staged entry is gone, or kept and
+        # flagged completed (failed task, kept for a rerun)
+        for ev in (st.RUNNING, st.SUCCEEDED, st.CANCELED, st.FAILED):
+            out.append(("item", ev, st.CANCELED, "absent", "one+fail"))            # a canceled task is un-staged
+            out.append(("item", ev, st.FAILED, "items_completed", "one+fail"))     # a failed one is kept, flagged
         out.append(("action", st.RUNNING, None, "absent", "leaf"))
         if tier == "quick":
             # quick tier: every (record, event) pair for which the task table has a row, on the
@@ -199,7 +206,10 @@ class UpdateTaskState(Unit):
             # a record waiting to be retried always carries its retry settings
             has_retry = (rec_c == st.RETRYING and kind == "action") or \
                 (may_complete and not light and e.branch(S.mk_bool("has_retry").z))
-            cases = WF_CASES if ctx.tier == "thorough" else ([st.RUNNING] if light else [st.RUNNING, st.FAILED])
+            # a completing report may also arrive late, in a workflow that is already canceled (a pending
+            # or paused task is not active: the cancel request completes at once)
+            late = [st.CANCELED] if may_complete else []
+            cases = (WF_CASES + late) if ctx.tier == "thorough" else ([st.RUNNING] if light else [st.RUNNING, st.FAILED] + late)
             wf_status = cases[e.choose(len(cases))]
 
             # ---------------- pre-state
@@ -227,6 +237,8 @@ class UpdateTaskState(Unit):
                 stg_present = stg_c != "absent"
             if stg_present:
                 stg = {"id": task_id, "route": 0, "ctxs": {"in": [0, 1]}, "prev": {"x0__t0": 0}, "ready": True}
+                if stg_c == "items_completed":
+                    stg["completed"] = True
                 if has_items:
                     stg["items"] = [{"status": S.mk_const("item%d" % i, st.ALL_STATUSES)} for i in range(2)]
                     # a with-items task keeps its staged entry: from its first retry on the entry carries
@@ -415,8 +427,16 @@ class UpdateTaskState(Unit):
                 and new_status == st.RETRYING
 
             # late report on a terminal workflow
-            if wf_status in (st.FAILED,):
+            if wf_status in (st.FAILED, st.CANCELED):
                 O("C04.uts.late_report_absorbed", ws.status == wf_status)
+
+            # a late item report on a completed with-items task (entry gone or flagged completed) is absorbed:
+            # no new record, status and decisions of the finished record unchanged, nothing staged
+            if kind == "item" and rec_c in st.COMPLETED_STATUSES and stg_c in ("absent", "items_completed"):
+                O("C04.uts.late_item_report_absorbed", cur is rec and len(sequence) == len(seq_ids) and new_status == rec_c
+                  and not [x for x in staged if id(x) not in snap_staged])
+            else:
+                O("C04.uts.late_item_report_absorbed", True)
 
             # links
             for (tid_, evs, recs, latest) in wf_consults:
@@ -591,7 +611,11 @@ class UpdateTaskState(Unit):
                     before = snap_staged[id(x)]["ctxs"]["in"] if id(x) in snap_staged else None
                     handed_on = all(q in idxs for q in mine_in if q != 0)
                     prefix_ok = (idxs[:len(mine_in)] == mine_in) if before is None else (idxs[:len(before)] == before)
-                    O("C06.uts.ctx_inherited", handed_on and prefix_ok and idxs is not cur["ctxs"]["in"])
+                    # ... and nothing is handed on twice: a context the successor already holds (from another
+                    # transition of this task, or inherited on both sides) applied again would put an older
+                    # value back over a newer one
+                    once = len(set(idxs)) == len(idxs)
+                    O("C06.uts.ctx_inherited", handed_on and prefix_ok and once and idxs is not cur["ctxs"]["in"])
             O("C06.uts.ctx_inherited", True)
             if retried:
                 entry_ = [x for x in staged if x["id"] == task_id and x.get("retry") is not None][0]
